@@ -41,6 +41,8 @@ type c20Case struct {
 	// Big: the reply body reaches the listener in one write larger than the limiter's burst (--log-http body keeps
 	// the whole body in memory and hands it over at once)
 	Big bool `json:"big"`
+	// Pp: the listener also expects a PROXY protocol header
+	Pp bool `json:"pp"`
 	// Fast: a high limit; the transfer is the burst plus one second's worth
 	Fast bool `json:"fast"`
 	// Tiny: with Churn, a fresh connection for every 3000 bytes
@@ -181,6 +183,7 @@ func c20Case1(seed int64, idx int, c *c20Case) (map[string]any, []map[string]any
 	if c.Big {
 		fc.LogHTTP = "body"
 	}
+	fc.ProxyProto = c.Pp
 	f, err := startFwd(fc)
 	if err != nil {
 		fatal("start: %v", err)
@@ -303,6 +306,9 @@ func c20Case1(seed int64, idx int, c *c20Case) (map[string]any, []map[string]any
 		cmu.Lock()
 		clients = append(clients, cl)
 		cmu.Unlock()
+		if c.Pp {
+			cl.send([]byte("PROXY TCP4 127.0.0.1 127.0.0.1 1111 2222\r\n"))
+		}
 		if c.C.Kind == "tunnel" {
 			cl.send([]byte("CONNECT origin.test:8080 HTTP/1.1\r\nHost: origin.test:8080\r\n\r\n"))
 			r, err := readWireResponseHeadOnlyT(cl, 8*time.Second)
